@@ -342,3 +342,23 @@ def r6(ctx):
                     ok = any(match(v, ('field', Pred(lambda u: nosite(u) == res), 1)) or has(v, ('field', Pred(lambda u: nosite(u) == res), 1)) for v in vals)
             ctx.require(ok, b, 'threaded-exclusions', 'the exclusion set passed to edit_word is the one returned by the previous edit',
                         'edit_word is called with %s: protected positions of earlier edits are forgotten' % show_in(b, ex), t.span)
+
+
+@rule('C15', 'R-C15-7', 'T11 SIBLING (one unit of length)',
+      'edit_word measures every length and position in Characters of CS::new(.., use_graphemes): no str::chars / str::len / '
+      'char_indices count flows into its index arithmetic (an inserted grapheme cluster of several code points would shift the '
+      'protected positions too far)')
+def r7(ctx):
+    b = ctx.body('corrupt::edit_word')
+    bodies = [b] + closures_in(ctx, b)
+    cs = [t for x in bodies for t in x.calls(r'CharString::new$')]
+    if len(cs) < 2:
+        raise AnchorMissing('CharString::new sites of edit_word (found %d)' % len(cs))
+    ok = True
+    for x in bodies:
+        for t in x.calls(r'str::chars$|str::char_indices$|str::len$|str::bytes$|Chars.*::count$|str::encode_utf16$'):
+            ok = False
+            ctx.fail(x, 'raw-length|' + (t.callee_res() or '').rsplit('::', 1)[-1], 'edit_word uses `%s` (line %d): a length in code points / bytes, while positions and the exclusion set '
+                     'are indexed in Characters (graphemes when use_graphemes is set)' % ((t.callee_res() or ''), t.span['line']), t.span)
+    if ok:
+        ctx.ok(b, 'edit_word and its %d closures measure lengths through CharString only (%d CS::new sites)' % (len(bodies) - 1, len(cs)))
